@@ -468,6 +468,24 @@ theorem ranked_no_deadlock (rank : Nat → Nat) (ws : List Waiter)
   have h2 := hmax w' hw'
   exact absurd h1 (Nat.not_lt.mpr h2)
 
+/-- a path along the edges -/
+inductive Path (es : List (Nat × Nat)) : Nat → Nat → Prop where
+  | one (a b) : (a, b) ∈ es → Path es a b
+  | more (a b c) : (a, b) ∈ es → Path es b c → Path es a c
+
+theorem ranked_path_lt (es rt : List (Nat × Nat)) (h : ranked es rt = true) (a b : Nat) (p : Path es a b) :
+    rankOf rt a < rankOf rt b := by
+  induction p with
+  | one a b hab => simpa using List.all_eq_true.mp h (a, b) hab
+  | more a b c hab _ ih =>
+    have : rankOf rt a < rankOf rt b := by simpa using List.all_eq_true.mp h (a, b) hab
+    exact Nat.lt_trans this ih
+
+/-- a ranked relation has no cycle: no mutex is, through any number of "asked for while held" steps, asked for while it
+    is held itself -/
+theorem ranked_acyclic (es rt : List (Nat × Nat)) (h : ranked es rt = true) (a : Nat) : ¬ Path es a a :=
+  fun p => Nat.lt_irrefl _ (ranked_path_lt es rt h a a p)
+
 /-- **No deadlock by lock order**: for a table all of whose functions the checker accepts, an `A` closed under calls and
     a rank table under which every computed edge goes upwards, goroutines each of which came to its wait through some
     chain of calls of the table — holding what the frames of that chain hold — are never deadlocked. -/
